@@ -190,7 +190,7 @@ def observe(pool, rg, scn, want_git=True, walkers=("parallel", "serial"), visibl
                     cwd2, arg, prefix = sib[0], "../" + d, "../" + d + "/"
             ob2 = r.rg_visible(rg, scn["ci"], w, cwd=cwd2, parent=True, paths=["--", arg])
             ob2["files"] = sorted(x[len(prefix):] if x.startswith(prefix) else "?" + x for x in ob2["files"])
-            res["below"].append({"roots": [arg], "cwd": cwd2 or ".", "walker": w, "ob": ob2, "named": True,
+            res["below"].append({"roots": [arg], "cwd": cwd2 or ".", "walker": w, "ob": ob2, "named": True, "prefix": prefix,
                                  "expected": [p[len(d) + 1:] for p in expected_below(visible, [d])]})
             # the same directory reached through a symbolic link that lies outside the repository and is named as the
             # root: roots are followed, and the parent ignore files are those of the directory the link resolves to
@@ -368,7 +368,7 @@ def explore(chk, cfgname, rg, timeout):
                        start="linked_root" if b.get("link") else "named_root" if b.get("named") else "subdirectory" if b["cwd"] else "several_roots", depth_below_root=min(depth, 3))
             chk.violation(sig, {"why": "search started below the ignore files (%s): rg lists %s which git ignores; rg skips %s which git does not ignore"
                                        % ("cwd=" + b["cwd"] if b["cwd"] else "roots " + " ".join(b["roots"]), listed, hidden),
-                                "scenario": scn, "cwd": b["cwd"], "roots": b["roots"], "link": b.get("link"), "expected_visible": b["expected"], "observed": ob,
+                                "scenario": scn, "cwd": b["cwd"], "roots": b["roots"], "link": b.get("link"), "named": b.get("named", False), "prefix": b.get("prefix"), "expected_visible": b["expected"], "observed": ob,
                                 "walker": b["walker"], "driver": "c04.py"})
         # coverage accounting
         cat("repositories")
@@ -445,6 +445,15 @@ def replay(path):
                 os.symlink(os.path.join(rp.dir, r["link"]), lnk)
                 ob = rp.rg_visible(rg, scn["ci"], walker, parent=True, paths=["--", lnk])
                 ob["files"] = sorted(x[len(lnk) + 1:] if x.startswith(lnk + "/") else "?" + x for x in ob["files"])
+            elif r.get("named"):
+                # the root as it was named then (an absolute spelling is rebased onto this run's repository)
+                arg, prefix = r["roots"][0], r.get("prefix") or ""
+                if os.path.isabs(arg):
+                    d = "/".join(arg.split("/")[4:]) if arg.startswith("/tmp/") else arg
+                    d = next((c for c in sorted(subroots(scn, scn["files"]), key=len, reverse=True) if arg.endswith("/" + c)), d)
+                    arg = os.path.join(rp.dir, d); prefix = arg + "/"
+                ob = rp.rg_visible(rg, scn["ci"], walker, cwd="" if r["cwd"] == "." else r["cwd"], parent=True, paths=["--", arg])
+                ob["files"] = sorted(x[len(prefix):] if x.startswith(prefix) else "?" + x for x in ob["files"])
             elif r["cwd"] and r["cwd"] != ".":
                 ob = rp.rg_visible(rg, scn["ci"], walker, cwd=r["cwd"], parent=True)
             else:
